@@ -498,7 +498,7 @@ var arts = []string{"token", "tokenjson", "car", "carb64", "cbor", "cborb64"}
 func drawToks(t *rapid.T, n int) []tok.Tok {
 	var out []tok.Tok
 	for i := 0; i < n; i++ {
-		out = append(out, tok.Gen(t, tok.GenCfg{Algs: []keys.Alg{keys.Ed25519, keys.Ed25519, keys.P256, keys.Secp256k1, keys.RSA}, NoTopNull: true, OnlyFuture: true, Values: val.Cfg{Depth: 1, MaxLen: 2, SafeInts: true, NoFloat: true}}))
+		out = append(out, tok.Gen(t, tok.GenCfg{Algs: []keys.Alg{keys.Ed25519, keys.Ed25519, keys.P256, keys.Secp256k1, keys.RSA}, NoTopNull: true, OnlyFuture: true, Values: val.Cfg{Depth: 1, MaxLen: 2, SafeInts: true, NoFloat: true, Big: true}}))
 	}
 	return out
 }
